@@ -98,6 +98,18 @@ class DDPDistributor(DistributorInterface):
         )
         group_rank: int = dist.get_rank(group=self._dist_group)
 
+        # Create the device meshes that hold the optimizer states of each group rank.
+        # NOTE: Creating a device mesh creates process groups, which requires all ranks to
+        # participate with the same arguments in the same order, even if they are not part of
+        # the mesh. The meshes are cached for _allocate_zeros_distributed_tensor.
+        for group_source_rank in range(self._group_size):
+            get_device_mesh(
+                device_type=self._global_blocked_params[0].device.type,
+                mesh=tuple(
+                    range(group_source_rank, self._global_size, self._group_size)
+                ),
+            )
+
         # Assign ranks to blocks with their respective buffer size.
         buffer_size_ranks = self._distribute_buffer_sizes(
             buffer_sizes=tuple(
